@@ -1006,7 +1006,7 @@ def r4_bounded(facts, rep, names):
     if body is None:
         return
     n_paths = 0
-    for L_ in (0, 1, 2, 3):
+    for L_ in ((0, 1, 2, 3, 4, 5, 6) if names.get("tier") == "thorough" else (0, 1, 2, 3)):
         key = "bounded:limit=%d" % L_
         dom = PrinterDomain(facts)
         it = core.Interp(facts, dom, budget=300000)
@@ -1766,7 +1766,7 @@ def r5_bounded(facts, rep, names, tier="quick"):
     show_continuation."""
     body = facts.fn(FMT)
     no_inline = [n for n in (names.get("digits"), names.get("big"), names.get("whole")) if n]
-    ZMAX = 2
+    ZMAX = 3 if tier == "thorough" else 2
     n_small = 0
     n_paths = 0
     role_memo, first_memo = {}, {}
@@ -2223,8 +2223,9 @@ def r6_bounded(facts, rep, names, body):
     show_continuation, and 'e' n-1 iff n > 1."""
     n_paths = 0
     roles_seen = set()
-    for n_ in (1, 2, 3, 4, 5):
-        for L_ in (0, 1, 2, 3):
+    deep = names.get("tier") == "thorough"
+    for n_ in ((1, 2, 3, 4, 5, 6, 7) if deep else (1, 2, 3, 4, 5)):
+        for L_ in ((0, 1, 2, 3, 4, 5) if deep else (0, 1, 2, 3)):
             key = "bounded:digits=%d:limit=%d" % (n_, L_)
             dom = PrinterDomain(facts)
             it = core.Interp(facts, dom, budget=300000)
@@ -2397,6 +2398,7 @@ def run(fx, rep, tier):
     names = discover(facts, rep)
     if names is None:
         return
+    names["tier"] = tier
     r1_generator(facts, rep, names)
     r2_dispatch(facts, rep, names)
     sub4 = type(rep)(rep.prop, rep.tier)
@@ -2422,6 +2424,7 @@ def run(fx, rep, tier):
         f2 = fx["rel"]
         n2 = discover(f2, sub)
         if n2 is not None:
+            n2["tier"] = tier
             r1_generator(f2, sub, n2)
             r2_dispatch(f2, sub, n2)
             s4_ = type(rep)(rep.prop, rep.tier)
